@@ -104,14 +104,18 @@ impl SourceFileAnalyzer {
                     source_line_ranges.token_ranges = Some(token_ranges);
                     if tokens.is_empty() {
                         self.warn_line(i, "Line contains no statements and will not be defined.");
+                        self.source_file_map.add_unmapped(source_line_ranges);
                     } else {
                         self.program.set_numbered_line(basic_line_number, tokens);
+                        self.source_file_map
+                            .add(basic_line_number, source_line_ranges);
                     }
                 }
-                Err(err) => self.messages.push(DiagnosticMessage::Error(i, err.into())),
+                Err(err) => {
+                    self.messages.push(DiagnosticMessage::Error(i, err.into()));
+                    self.source_file_map.add_unmapped(source_line_ranges);
+                }
             }
-            self.source_file_map
-                .add(basic_line_number, source_line_ranges);
             self.line_tokens.push(line_tokens);
         }
         self.lines = lines;
